@@ -338,10 +338,50 @@ class HashFields(Contract):
             ok = len(st) == len(names) and all(
                 v is getattr(b1.obj, n) for v, n in zip(st, names, strict=True))
             h.oblige(f"getstate.fields-only[{K}]", z3.BoolVal(ok))
-        extra = set(vars(b1.obj)) - {f.name for f in dataclasses.fields(cls)} \
-            - {"_hash_value"}
+        # whatever hashing cached on the object must not be part of the
+        # pickling state (a hash is only valid within one process)
+        fieldnames = {f.name for f in dataclasses.fields(cls)}
+        try:
+            state = b1.obj.__getstate__()
+        except EngineSignal:
+            raise
+        except Exception as e:  # noqa: BLE001
+            state = None
+            h.fail(f"getstate.no-exception[{K}]", f"{type(e).__name__}: {e}")
+        if isinstance(state, dict):
+            leaked = sorted(set(state) - fieldnames)
+            h.oblige(f"getstate.no-cached-hash[{K}]",
+                     z3.BoolVal(not leaked), info=leaked)
+        elif isinstance(state, (list, tuple)):
+            h.oblige(f"getstate.no-cached-hash[{K}]",
+                     z3.BoolVal(len(state) == len(fieldnames)))
+        extra = set(vars(b1.obj)) - fieldnames - {"_hash_value"}
         h.oblige(f"hash.caches-only-in-_hash_value[{K}]",
                  z3.BoolVal(not extra), info=sorted(extra))
+
+
+    def replay(self, inst, clause, model, info):
+        if not clause.startswith("getstate."):
+            return None
+        return HASH_REPLAY.format(cls=inst["cls"])
+
+
+HASH_REPLAY = '''
+import sys, dataclasses, pickle
+sys.path.insert(0, "/verif")
+from pyvc.replay_nodes import sample_node
+from pyvc.replaylib import reproduced, not_reproduced
+cls = {cls!r}
+for n in sample_node(cls):
+    hash(n)
+    st = n.__getstate__()
+    names = {{f.name for f in dataclasses.fields(n)}}
+    if isinstance(st, dict) and set(st) - names:
+        reproduced(f"after hash(), the pickling state of a {{cls}} carries "
+                   f"{{sorted(set(st) - names)}} (a per-process hash survives "
+                   "pickling into another interpreter)")
+not_reproduced()
+'''
 
 
 def _cls_any(name):
